@@ -187,6 +187,8 @@ Definition validate_script (nc prec : Z) (scans : list scan) : M smode :=
   match scans with
   | [] => fail BadScanScript
   | s0 :: _ =>
+      (* the component count is checked before the per-component arrays are used *)
+      (if g_NCOMP_CHECK_IN_VALIDATE =? 1 then guard (nc >? g_MAX_COMPONENTS) ComponentCount else ret tt) ;;;
       let mode := script_mode s0 in
       st0 <- init_state mode nc ;;
       st <- scan_loop mode nc prec scans st0 ;;
@@ -312,6 +314,12 @@ Definition master_start (c : cfg) : M started :=
      input_components, SET_COMP(ci, ci, 1,1, 0,0,0)), sampling factors forced to 1 *)
   nc <- (if lossless then
            guard ((f_incomp c <? 1) || (f_incomp c >? g_MAX_COMPONENTS)) ComponentCount ;;;
+           (* the script is validated again against the new component count *)
+           match f_script c with
+           | Some scans => if g_REVALIDATE_AFTER_LOSSLESS =? 1
+                           then validate_script (f_incomp c) (f_prec c) scans ;;; ret tt else ret tt
+           | None => ret tt
+           end ;;;
            ret (f_incomp c)
          else ret (f_ncomp c)) ;;
   let comps := if lossless then repeat {| c_h := 1; c_v := 1 |} (Z.to_nat g_MAX_COMPONENTS) else f_comps c in
@@ -468,6 +476,17 @@ Definition encode_one_block (prec : Z) (dctbl actbl : ctbl) (st : bitstate) (las
             Some (if r >? 0 then put_bits st2 (nthZ (ehufco actbl) 0) (nthZ (ehufsi actbl) 0) else st2)
         end
   end.
+
+(* flush_bits: whole bytes, then the partial byte filled with ones; returns the bytes in order *)
+Fixpoint flush_loop (fuel : nat) (put nb : Z) (out : list Z) : Z * list Z :=
+  match fuel with
+  | O => (nb, out)
+  | S k => if nb >=? 8 then flush_loop k put (nb - 8) (emit_byte out (Z.shiftr put (nb - 8))) else (nb, out)
+  end.
+Definition flush_bits (st : bitstate) : list Z :=
+  let '(nb, out) := flush_loop 9 (b_put st) (g_BIT_BUF_SIZE - b_free st) (b_out st) in
+  rev (if nb >? 0 then emit_byte out (Z.lor (Z.shiftl (b_put st) (8 - nb)) (Z.shiftr 255 nb)) else out).
+Definition bitstate0 : bitstate := {| b_put := 0; b_free := g_BIT_BUF_SIZE; b_out := [] |}.
 
 Definition zigzag_block (block : list Z) : list Z := map (fun k => nthZ block (Z.to_nat k)) g_kloop_order.
 
